@@ -57,7 +57,13 @@ def run(ctx):
         mreqs, idx = [], []
         for k, (rq, r) in enumerate(zip(reqs, impl)):
             if isinstance(r, Err):
-                # construction may legitimately be refused (same class, conflicting request): not a comparison case
+                # construction may legitimately be refused (same class, conflicting request): not a comparison case;
+                # anything else (e.g. answers that depend on whether a hash was taken before) is a failure
+                if r.kind not in ("SingletonError", "ObjectInitError"):
+                    found.append({"key": {"kind": rq[1][0], "a": rq[1][1], "b": rq[1][2]}, "input": rq[1],
+                                  "what": f"comparing the pair raised {r.kind} (for RuntimeError: the operators, `in` a set and the "
+                                          "hashes answer differently before and after a hash was taken; see harness/impl/compare.py c10_pair)",
+                                  "snippet": f"# harness op c10_pair {rq[1]!r} (harness/impl/compare.py)"})
                 continue
             mreqs.append(("cmp_" + rq[1][0], [r[0], r[1]]))
             idx.append(k)
